@@ -83,6 +83,30 @@ NEEDS = {
  'C15_4': 'postReact with >= 1 injection: injections run before the state instead of after',
  'C18_4': 'TaskCapacityN above the state count: PlanT::clear() clears bits beyond the bit arrays (same patch as C08_3)',
  'C18_5': 'Iterator::remove() of the last of >= 2 tasks, then append: writes taskLinks[255]',
+ 'C01_5': "manual activation, initial state's guard redirects, the redirect is vetoed, nothing accepted before: INVALID staged, a state entered while activeStateId() is invalid",
+ 'C01_6': 'copy of an active machine: the core copy constructor drops the registry, the copy reports no active state',
+ 'C01_7': 'copy of an automatic machine: the copy constructor activates again (root enter() twice, state 0 entered, copied state never exited)',
+ 'C02_6': "request made from enter()/exit()/reenter() through the machine's own changeTo(): wiped at the end of the step",
+ 'C02_7': 'a step that needs exactly LIMIT rounds (LIMIT = 1: any request): the substitution loop starts at 1, the request is not processed',
+ 'C02_8': 'state with >= 2 injections re-entered: first injection gets enter() instead of reenter()',
+ 'C05_6': 'react() of the active state receives a copy of the event (machine with >= 2 states)',
+ 'C05_7': 'a state (or head) that defines query() itself: never called',
+ 'C07_6': 'plan task with payload fires, its slot is recycled by a payload-free task: that task shows the stale payload flag',
+ 'C07_7': 'plan task payload larger than its alignment: task storage sized with alignof(Payload)',
+ 'C08_6': 'plan of >= 3 tasks, Iterator::remove() of a later task: the tasks in between vanish (same patch as C10_1)',
+ 'C08_7': 'success report of a state survives its exit (clearTaskStatus clears failures twice): a later task of that origin fires without a new report',
+ 'C10_4': 'const plan view with TaskCapacityN above the state count: CPlan iteration / emptiness bounded by the state count',
+ 'C10_5': 'append: back link of every non-first task points to itself; removal of a non-first task corrupts the plan',
+ 'C10_6': 'payload-free machines: PlanData::clear() keeps the task links; load() into a loader with >= 2 tasks leaves a phantom task',
+ 'C11_5': "react() without a request keeps the previous step's previousTransition()",
+ 'C11_6': "machine copied mid-history: the copy's previousTransition() is the source's outstanding request",
+ 'C11_7': 'replayTransition() records an empty previousTransition() on the replica (relay chains stall)',
+ 'C16_5': 'two cancellations in one guard round: only one cancellation record',
+ 'C16_6': 'control.fail(id) for another state: the task-status record names the caller',
+ 'C16_7': 'cancellation with no logger attached (never attached or detached): null logger dereferenced',
+ 'C18_6': 'BitArrayT::set() with CAPACITY a multiple of 8 writes one byte past the array (8, 16, ... states with plans)',
+ 'C18_7': 'StreamBufferT of BIT_CAPACITY % 8 == 1 (128..255 states) is one byte short',
+ 'C18_8': 'contain() for 249..255 bits wraps to 0 units: the task bit arrays have no storage',
 }
 def sh(cmd, **kw):
     return subprocess.run(cmd, shell=True, stdout=subprocess.PIPE, stderr=subprocess.STDOUT, text=True, **kw)
